@@ -246,6 +246,8 @@ def leaf_names():
 
 
 def _ctrl_wrap(draw, base, free, max_ctrl=4, max_work=3):
+    if not free:     # no wire left for a control (the leaf / an inner wrapper used the whole pool): leave the target as it is
+        return base, free
     k = draw(st.integers(1, min(max_ctrl, len(free))))
     cw = free[:k]
     cv = draw(st.one_of(st.just([1] * k), st.just([0] * k), st.lists(st.integers(0, 1), min_size=k, max_size=k)))
